@@ -75,7 +75,7 @@ func c03(c *core.Check) {
 	c.Assume = []string{"specificity components stay below 2^30", "go/ssa lowering of the analysed functions is faithful"}
 
 	// ---- R1 precedence table
-	r1 := c.Rule("R1", "declarationPrecedence, folded on {user agent,user,author}x{normal,important}, is strictly increasing in the CSS 2.1 §6.4.1 order: UA < user < author < author!important < user!important", 5)
+	r1 := c.Rule("R1", "declarationPrecedence, folded on {user agent,user,author}x{normal,important}, is strictly increasing in the CSS 2.1 §6.4.1 order: UA < user < author < author!important < user!important", 3)
 	tbl, err := precedenceTable(p)
 	if err != nil {
 		r1.Unknown("html/tree.declarationPrecedence", "-", err.Error())
@@ -238,7 +238,7 @@ func c03(c *core.Check) {
 	}
 
 	// ---- R3 guarded insertion
-	r3 := c.Rule("R3", "every write into a cascaded style (map[PropKey]weigthedValue) is reached only when old.isNone() or old.Less(new) holds, old being the entry read from the same map and new the weight stored", 3)
+	r3 := c.Rule("R3", "every write into a cascaded style (map[PropKey]weigthedValue) is reached only when old.isNone() or old.Less(new) holds, old being the entry read from the same map and new the weight stored", 1)
 	isNone := p.Method("html/tree", "weight", "isNone")
 	wvObj := p.Obj("html/tree", "weigthedValue")
 	if isNone == nil || wvObj == nil || wLess == nil {
@@ -306,11 +306,11 @@ func c03(c *core.Check) {
 	}
 
 	// ---- R4 style attribute outranks selectors; presentational hints are author/zero
-	r4 := c.Rule("R4", "the weight given to a style-attribute declaration is above weight{precedence(author,imp), s} for every selector specificity s and below the next origin level; presentational hints carry specificity {0,0,0}", 3)
+	r4 := c.Rule("R4", "the weight given to a style-attribute declaration is above weight{precedence(author,imp), s} for every selector specificity s and below the next origin level; presentational hints carry specificity {0,0,0}", 1)
 	c03StyleAttr(c, r4, tbl)
 
 	// ---- R5 sheet order and origins
-	r5 := c.Rule("R5", "in GetAllComputedStyles the sheets are appended UA, (forms UA), presentational hints (author, {0,0,0}), author sheets (author), user sheets (user), in that order", 8)
+	r5 := c.Rule("R5", "in GetAllComputedStyles the sheets are appended UA, (forms UA), presentational hints (author, {0,0,0}), author sheets (author), user sheets (user), in that order", 7)
 	c03Sheets(c, r5)
 
 	// ---- R6 filtered blocks never apply
@@ -318,7 +318,7 @@ func c03(c *core.Check) {
 	c03Media(c, r6)
 
 	// ---- R7 every selector of a list is tested
-	r7 := c.Rule("R7", "matcher.match tests every selector of every rule against the element: each iteration of the loop over a rule's selector list reaches sel.Match, and the loop has no early exit (each matching selector contributes its own specificity)", 3)
+	r7 := c.Rule("R7", "matcher.match tests every selector of every rule against the element: each iteration of the loop over a rule's selector list reaches sel.Match, and the loop has no early exit (each matching selector contributes its own specificity)", 1)
 	c03Matcher(c, r7)
 	r10 := c.Rule("R10", "an invalid rule is dropped alone: in html/tree, css/validation and css/parser no loop tests an error that it carries over from a previous iteration (an error variable assigned in one iteration and still set in the next makes every following item fail with the first bad one)", 26)
 	staleErrorRule(c, r10, "html/tree", "css/validation", "css/parser")
@@ -1068,7 +1068,7 @@ func c03Media(c *core.Check, r *core.Rule) {
 // c03Nesting: nested rules (CSS Nesting) as preprocessed by validation.PreprocessDeclarationsPrelude.
 func c03Nesting(c *core.Check) {
 	p := c.Prog
-	r := c.Rule("R9", "nested rules: every selector of a nested rule's list is made relative to the parent on its own (the parent is inserted inside a loop over the comma-separated parts of the nested prelude), and the rule's own declarations are ordered before those of its nested rules (the returned list starts with them)", 3)
+	r := c.Rule("R9", "nested rules: every selector of a nested rule's list is made relative to the parent on its own (the parent is inserted inside a loop over the comma-separated parts of the nested prelude), and the rule's own declarations are ordered before those of its nested rules (the returned list starts with them)", 1)
 	fn := p.Fn("css/validation", "PreprocessDeclarationsPrelude")
 	if fn == nil {
 		r.Anchor("css/validation.PreprocessDeclarationsPrelude")
